@@ -23,12 +23,27 @@ Inductive pat :=
 | PWild
 | POther (txt : string).
 
-(* name::combined_ident on a non-empty vector: format_ident!("{combined}_{ident}") folded from the left *)
+(* IdentFragment for Ident: an explicit argument of format_ident! loses ONE leading `r#` *)
+Definition unraw (s : string) : string := match s with String "r" (String "#" rest) => rest | _ => s end.
+
+(* name::combined_ident (the REPAIRED code): a single identifier is returned as it is (a raw identifier `r#type` stays raw);
+   two or more are folded from the left with format_ident!("{}_{}", combined, ident), whose explicit arguments BOTH lose a
+   leading `r#` *)
 Definition combined (ws : list string) : string :=
   match ws with
   | [] => "__"   (* pat_vars_flat_into_ident pushes `__` before calling combined_ident on an empty vector *)
-  | w :: t => fold_left (fun acc x => acc ++ "_" ++ x) t w
+  | [w] => w
+  | w :: t => fold_left (fun acc x => unraw acc ++ "_" ++ unraw x) t w
   end.
+
+(* s does not start with `r#` *)
+Definition no_raw (s : string) : bool :=
+  match s with
+  | String c (String d _) => negb (Ascii.eqb c "r"%char && Ascii.eqb d "#"%char)
+  | _ => true
+  end.
+(* at most one `r#` prefix: what an identifier token can look like *)
+Definition ident_like (s : string) : bool := no_raw (unraw s).
 
 (* pat_vars_flat_into_ident: Some ident / None (Pat::Rest) / abort_call_site! *)
 Inductive fres := FName (s : string) | FSkip | FAbort.
@@ -126,6 +141,9 @@ Fixpoint join (ws : list string) : string :=
   | [w] => w
   | w :: t => w ++ "_" ++ join t
   end.
+
+(* the flattened name of a list of words when binders may be raw: a single word is kept as it is, two or more lose their `r#` *)
+Definition spec_words (ws : list string) : string := match ws with [w] => w | _ => join (map unraw ws) end.
 
 (* binders of a pattern, left to right *)
 Fixpoint binders (p : pat) : list string :=
